@@ -49,6 +49,9 @@ func NewSparseConstFloat32Vector(indices []int, values []float32, n int) SparseC
   r.indices = indices[0:0]
   r.values = make([]float32, 0, len(values))
   for i, k := range indices {
+    if k < 0 {
+      panic("negative index")
+    }
     if k >= n {
       panic("index larger than vector dimension")
     }
